@@ -1,6 +1,695 @@
+// drivers_gen.hpp - C12 (generated static offsets) and C13 (encoded dispatch
+// data), run-time halves. Need a std_rtti policy (the generator prints
+// demangled type names).
 #pragma once
 #include "drivers_unknown.hpp"
+
+#include <yorel/yomm2/decode.hpp>
+
 namespace drv {
-inline int offsets_main() { return 2; }
-inline int encode_main() { return 2; }
+
+// ---------------------------------------------------------------------------
+// C12
+
+inline bool parse_list(const std::string& text, size_t& pos, std::vector<long>& out) {
+    // expects "{a, b, c}" starting at or after pos
+    size_t b = text.find('{', pos);
+    size_t e = text.find('}', b);
+    if (b == std::string::npos || e == std::string::npos)
+        return false;
+    std::string body = text.substr(b + 1, e - b - 1);
+    const char* p = body.c_str();
+    while (*p) {
+        while (*p == ' ' || *p == ',')
+            ++p;
+        if (!*p)
+            break;
+        char* end;
+        long v = strtol(p, &end, 0);
+        if (end == p)
+            return false;
+        out.push_back(v);
+        p = end;
+    }
+    pos = e + 1;
+    return true;
 }
+
+struct ParsedOffsets {
+    std::vector<long> slots, strides;
+};
+
+// one line per method, in the order of Policy::methods
+inline bool parse_static_offsets(const std::string& text, std::vector<ParsedOffsets>& out) {
+    size_t pos = 0;
+    while (true) {
+        size_t at = text.find("static_offsets<", pos);
+        if (at == std::string::npos)
+            return true;
+        size_t line_end = text.find('\n', at);
+        std::string line = text.substr(at, line_end - at);
+        ParsedOffsets po;
+        size_t p = line.find("slots[] =");
+        if (p == std::string::npos)
+            return false;
+        if (!parse_list(line, p, po.slots))
+            return false;
+        size_t q = line.find("strides[] =");
+        if (q != std::string::npos)
+            if (!parse_list(line, q, po.strides))
+                return false;
+        out.push_back(po);
+        pos = line_end == std::string::npos ? text.size() : line_end + 1;
+    }
+}
+
+template<int S>
+void fill_static(const std::vector<long>& slots, const std::vector<long>& strides) {
+    using SO = yorel::yomm2::detail::static_offsets<hx::method_of<S>>;
+    for (size_t i = 0; i < slots.size(); ++i)
+        SO::slots[i] = (std::size_t)slots[i];
+    if constexpr (hx::shape_arity(S) > 1)
+        for (size_t i = 0; i < strides.size(); ++i)
+            SO::strides[i] = (std::size_t)strides[i];
+}
+
+inline void fill_static_for(int shape, const std::vector<long>& slots, const std::vector<long>& strides) {
+    switch (shape) {
+    case hx::SO_BASE + 0:
+        fill_static<hx::SO_BASE + 0>(slots, strides);
+        break;
+    case hx::SO_BASE + 1:
+        fill_static<hx::SO_BASE + 1>(slots, strides);
+        break;
+    case hx::SO_BASE + 2:
+        fill_static<hx::SO_BASE + 2>(slots, strides);
+        break;
+    case hx::SO_BASE + 3:
+        fill_static<hx::SO_BASE + 3>(slots, strides);
+        break;
+    }
+}
+
+inline std::string list_text(const std::vector<long>& v) {
+    std::string s = "{";
+    for (size_t i = 0; i < v.size(); ++i)
+        s += (i ? "," : "") + std::to_string(v[i]);
+    return s + "}";
+}
+template<class V>
+std::string list_text_sz(const V& v) {
+    std::string s = "{";
+    size_t i = 0;
+    for (auto x : v)
+        s += (i++ ? "," : "") + std::to_string(x);
+    return s + "}";
+}
+
+inline void check_offsets(const rx::Registry& r, std::vector<Viol>& out) {
+    using namespace yorel::yomm2;
+    hx::Built b;
+    hx::build(r, b);
+    COUNT("updates", 1);
+    COUNT("registrations", r.nr + r.nm);
+    if (!b.ok) {
+        out.push_back({"update_failed", "update reported " + err_text(b.err)});
+        return;
+    }
+    std::ostringstream os;
+    generator().write_static_offsets<hx::P>(os);
+    COUNT("generator_runs", 1);
+    std::string text = os.str();
+    std::vector<ParsedOffsets> parsed;
+    if (!parse_static_offsets(text, parsed) || (int)parsed.size() != r.nm) {
+        out.push_back({"offsets_text_malformed", text});
+        return;
+    }
+    // (1) numbers, position by position
+    for (int mi = 0; mi < r.nm; ++mi) {
+        const rx::Meth& m = r.meths[mi];
+        auto& cm = b.comp->methods[mi];
+        const std::size_t* ss = hx::g_ops[m.shape].info->slots_strides_ptr;
+        std::vector<long> want_slots(cm.slots.begin(), cm.slots.end());
+        std::vector<long> want_strides(cm.strides.begin(), cm.strides.end());
+        std::vector<long> inst_slots, inst_strides;
+        for (int i = 0; i < m.arity; ++i)
+            inst_slots.push_back((long)ss[i]);
+        for (int i = 1; i < m.arity; ++i)
+            inst_strides.push_back((long)ss[m.arity + i - 1]);
+        COUNT("offset_numbers", 2 * m.arity - 1);
+        if (inst_slots != want_slots || inst_strides != want_strides)
+            out.push_back(
+                {"installed_offsets_differ_from_compiler",
+                 "method " + std::to_string(mi) + " installed slots=" +
+                     list_text(inst_slots) + " strides=" + list_text(inst_strides) +
+                     " compiler slots=" + list_text(want_slots) +
+                     " strides=" + list_text(want_strides)});
+        if (parsed[mi].slots != want_slots || parsed[mi].strides != want_strides)
+            out.push_back(
+                {"generated_offsets_wrong",
+                 "method " + std::to_string(mi) + " arity " + std::to_string(m.arity) +
+                     " generated slots=" + list_text(parsed[mi].slots) +
+                     " strides=" + list_text(parsed[mi].strides) +
+                     " installed slots=" + list_text(want_slots) +
+                     " strides=" + list_text(want_strides)});
+    }
+    if (!out.empty())
+        return;
+    // (2) a program using the generated numbers dispatches identically (and
+    // the checked policy accepts them)
+    int si = 0;
+    for (int mi = 0; mi < r.nm; ++mi)
+        if (r.meths[mi].shape >= hx::SO_BASE)
+            si = mi;
+    const rx::Meth& m0 = r.meths[si];
+    fill_static_for(m0.shape, parsed[si].slots, parsed[si].strides);
+    int8_t first_tuple[rx::MAXA];
+    bool have_tuple = false;
+    rx::for_each_tuple(r.po, m0, [&](const int8_t* a) {
+        if (!have_tuple) {
+            memcpy(first_tuple, a, rx::MAXA);
+            have_tuple = true;
+        }
+        int exp = rx::expected_call(r.po, m0, a);
+        hx::set_dyn(a, m0.arity);
+        hx::Obs ob = hx::observe_call(m0, a);
+        COUNT("calls", 2);
+        if (ob.outcome != exp || ob.resolved != exp)
+            out.push_back(
+                {"static_offsets_dispatch_differs",
+                 "args=(" + tuple_text(a, m0.arity) + ") expected=" +
+                     std::to_string(exp) + " ran=" + std::to_string(ob.outcome) +
+                     " resolved=" + std::to_string(ob.resolved) +
+                     " error=" + err_text(ob.other)});
+    });
+    if (!out.empty() || !have_tuple)
+        return;
+    // (3) the consistency check rejects every other value
+    if constexpr (hx::has_checks) {
+        auto expect_rejected = [&](const std::vector<long>& s, const std::vector<long>& t,
+                                   const char* which, bool stride) {
+            fill_static_for(m0.shape, s, t);
+            hx::set_dyn(first_tuple, m0.arity);
+            hx::Obs ob = hx::observe_call(m0, first_tuple);
+            COUNT("calls", 2);
+            COUNT("perturbations", 1);
+            bool ok = false;
+            if (ob.threw && ob.other) {
+                if (stride)
+                    ok = std::get_if<static_stride_error>(&*ob.other) != nullptr;
+                else
+                    ok = std::get_if<static_slot_error>(&*ob.other) != nullptr;
+            }
+            if (!ok || ob.body_ran)
+                out.push_back(
+                    {"wrong_static_offset_accepted",
+                     std::string(which) + " slots=" + list_text(s) + " strides=" +
+                         list_text(t) + " ran=" + std::to_string(ob.outcome) +
+                         " error=" + err_text(ob.other)});
+        };
+        for (size_t i = 0; i < parsed[si].slots.size(); ++i)
+            for (long dlt : {1L, 7L}) {
+                auto s = parsed[si].slots;
+                s[i] += dlt;
+                expect_rejected(s, parsed[si].strides, "perturbed slot", false);
+            }
+        for (size_t i = 0; i < parsed[si].strides.size(); ++i)
+            for (long dlt : {1L, 5L}) {
+                auto t = parsed[si].strides;
+                t[i] += dlt;
+                expect_rejected(parsed[si].slots, t, "perturbed stride", true);
+            }
+        fill_static_for(m0.shape, parsed[si].slots, parsed[si].strides);
+    }
+}
+
+// registries for C12: method 0 has static offsets (shape SO_BASE + k - 1),
+// method 1 is an ordinary unary method so that slots are not all zero
+template<class F>
+void for_each_offsets_registry(const SpaceSpec& sp, F&& f) {
+    int shape = hx::SO_BASE + sp.k - 1;
+    int extra = hx::shape_index("R");
+    for (int n = sp.nlo; n <= sp.nhi; ++n)
+        rx::for_each_poset(n, [&](const rx::Poset& po) {
+            rx::Registry r;
+            r.po = po;
+            rx::Meth& m = r.meths[0];
+            rx::for_each_vp(n, sp.k, m, [&] {
+                auto legal = rx::legal_defs(po, sp.k, m.vp);
+                rx::for_each_defset(legal, sp.d, m, [&] {
+                    m.shape = shape;
+                    for (int ev = 0; ev < n; ++ev)
+                        for (int order = 0; order < 2; ++order)
+                            for (auto pres : sp.pres) {
+                                rx::Registry rr = r;
+                                rx::Meth e;
+                                e.shape = extra;
+                                e.arity = 1;
+                                e.vp[0] = ev;
+                                e.nd = 1;
+                                e.def[0][0] = ev;
+                                rr.nm = 2;
+                                rr.meths[1] = e;
+                                rx::present(rr, pres, false);
+                                rx::Registry ro = rr;
+                                if (order) // static-offset method registered second
+                                    std::swap(ro.meths[0], ro.meths[1]);
+                                f(rr, ro);
+                            }
+                });
+            });
+        });
+}
+
+inline int offsets_main() {
+    auto& o = run::g_opts;
+    run::declare_counters(
+        {"registries", "nontrivial", "updates", "registrations", "calls",
+         "generator_runs", "offset_numbers", "perturbations", "mi_registries"});
+    auto run_one = [&](const rx::Registry&, const rx::Registry& ordered,
+                       std::vector<Viol>& v) { check_offsets(ordered, v); };
+    if (!o.replay.empty()) {
+        run::g_sh = new run::Shared();
+        run::g_out = stdout;
+        rx::Registry r = rx::from_text(o.replay.c_str());
+        std::vector<Viol> v;
+        run_one(r, r, v);
+        for (auto& x : v)
+            printf("VIOL\t%s\t%s\n", x.kind.c_str(), x.detail.c_str());
+        return v.empty() ? 0 : 1;
+    }
+    auto spaces = parse_spaces(o.space);
+    return run::run_sharded([&] {
+        long samples = 0;
+        for (auto& sp : spaces)
+            for_each_offsets_registry(sp, [&](const rx::Registry& canon, const rx::Registry& r) {
+                if (!run::g_gate.take(r))
+                    return;
+                COUNT("registries", 1);
+                if (rx::has_mi(r.po)) {
+                    COUNT("mi_registries", 1);
+                    COUNT("nontrivial", 1);
+                } else if (sp.k >= 3)
+                    COUNT("nontrivial", 1);
+                std::vector<Viol> v;
+                run_one(canon, r, v);
+                for (auto& x : v)
+                    run::candidate(x.kind.c_str(), rx::to_text(r), x.detail);
+                if (o.shard == 0 && samples < 3 && r.po.n >= 3 && run::g_gate.idx % 17 == 0) {
+                    ++samples;
+                    run::sample(rx::to_text(r));
+                }
+            });
+    });
+}
+
+// ---------------------------------------------------------------------------
+// C13
+
+struct Encoded {
+    long headroom = 0, nslots = 0, nenc = 0, ndec = 0, ndtbl = 0;
+    std::vector<long> slots, vtbls, dtbls;
+    std::string why;
+};
+
+// nested brace lists of numbers
+struct Node {
+    bool leaf = false;
+    long value = 0;
+    std::vector<Node> kids;
+};
+inline bool parse_node(const char*& p, Node& n) {
+    while (*p == ' ' || *p == '\n' || *p == '\t')
+        ++p;
+    if (*p == '{') {
+        ++p;
+        while (true) {
+            while (*p == ' ' || *p == '\n' || *p == '\t' || *p == ',')
+                ++p;
+            if (*p == '}') {
+                ++p;
+                return true;
+            }
+            if (!*p)
+                return false;
+            Node k;
+            if (!parse_node(p, k))
+                return false;
+            n.kids.push_back(k);
+        }
+    }
+    char* end;
+    long v = strtol(p, &end, 0);
+    if (end == p)
+        return false;
+    n.leaf = true;
+    n.value = v;
+    p = end;
+    return true;
+}
+
+inline bool parse_encoded(const std::string& raw, Encoded& e) {
+    // strip comments
+    std::string text;
+    for (size_t i = 0; i < raw.size(); ++i) {
+        if (raw[i] == '/' && i + 1 < raw.size() && raw[i + 1] == '/') {
+            while (i < raw.size() && raw[i] != '\n')
+                ++i;
+        }
+        if (i < raw.size())
+            text += raw[i];
+    }
+    auto size_after = [&](const char* key, size_t from, long& v) -> size_t {
+        size_t at = text.find(key, from);
+        if (at == std::string::npos)
+            return at;
+        v = strtol(text.c_str() + at + strlen(key), nullptr, 10);
+        return at + 1;
+    };
+    size_t p = 0;
+    if ((p = size_after("headroom[", 0, e.headroom)) == std::string::npos ||
+        (p = size_after("slots[", p, e.nslots)) == std::string::npos ||
+        (p = size_after("vtbls[", p, e.nenc)) == std::string::npos ||
+        (p = size_after("vtbls[", p, e.ndec)) == std::string::npos ||
+        (p = size_after("dtbls[", p, e.ndtbl)) == std::string::npos) {
+        e.why = "declaration not found";
+        return false;
+    }
+    size_t init = text.find("yomm2_dispatch_data =");
+    if (init == std::string::npos) {
+        e.why = "initializer not found";
+        return false;
+    }
+    const char* cp = text.c_str() + init + strlen("yomm2_dispatch_data =");
+    Node root;
+    if (!parse_node(cp, root)) {
+        e.why = "initializer does not parse";
+        return false;
+    }
+    // { { { {}, {slots}, {vtbls} } }, {dtbls} }
+    if (root.kids.size() != 2 || root.kids[0].kids.size() != 1 ||
+        root.kids[0].kids[0].kids.size() != 3) {
+        e.why = "initializer has an unexpected shape";
+        return false;
+    }
+    auto flat = [&](const Node& n, std::vector<long>& out) {
+        for (auto& k : n.kids) {
+            if (!k.leaf)
+                return false;
+            out.push_back(k.value);
+        }
+        return true;
+    };
+    if (!flat(root.kids[0].kids[0].kids[1], e.slots) ||
+        !flat(root.kids[0].kids[0].kids[2], e.vtbls) || !flat(root.kids[1], e.dtbls)) {
+        e.why = "nested initializer";
+        return false;
+    }
+    return true;
+}
+
+struct DataView {
+    struct {
+        std::uint16_t* slots;
+        std::uint16_t* vtbls;
+    } encoded;
+    std::uintptr_t* vtbls;
+    std::uintptr_t* dtbls;
+};
+
+// reference decoder over the parsed arrays: consumption and in-place safety
+inline std::string simulate_decode(const rx::Registry& r, const Encoded& e) {
+    using namespace yorel::yomm2;
+    // slots and strides
+    long need = 0;
+    for (int mi = 0; mi < r.nm; ++mi)
+        need += 2 * r.meths[mi].arity - 1;
+    if (need != (long)e.slots.size() || need != e.nslots)
+        return "slots/strides: " + std::to_string(e.slots.size()) + " values, array of " +
+            std::to_string(e.nslots) + ", methods need " + std::to_string(need);
+    // dispatch tables: one stop bit per multi-method
+    size_t di = 0;
+    for (int mi = 0; mi < r.nm; ++mi)
+        if (r.meths[mi].arity > 1) {
+            bool more = true;
+            while (more) {
+                if (di >= e.dtbls.size())
+                    return "dispatch tables: decoder reads past the " +
+                        std::to_string(e.dtbls.size()) + " emitted cells";
+                long code = e.dtbls[di++];
+                more = !(code & stop_bit);
+                if ((code & ~stop_bit) >= r.meths[mi].nd + 2)
+                    return "dispatch tables: definition index out of range";
+            }
+        }
+    if (di != e.dtbls.size() || (long)e.dtbls.size() > e.ndtbl)
+        return "dispatch tables: " + std::to_string(e.dtbls.size()) + " cells emitted, " +
+            std::to_string(di) + " consumed, array of " + std::to_string(e.ndtbl);
+    // v-tables, in the order of the class records (first record per class)
+    size_t ri = 0; // read index in encoded vtbls
+    long wi = 0;   // write index in decoded vtbls
+    long read_base = 2 * (e.headroom + e.nslots); // byte offset of encoded.vtbls
+    bool seen[rx::MAXC] = {};
+    for (int i = 0; i < r.nr; ++i) {
+        int c = r.recs[i].cls;
+        if (seen[c])
+            continue;
+        seen[c] = true;
+        auto fetch = [&](long& code, bool& last) -> bool {
+            if (ri >= e.vtbls.size())
+                return false;
+            // in place: the word about to be read must not have been overwritten
+            if (read_base + 2 * (long)ri < 8 * wi)
+                return false;
+            code = e.vtbls[ri++];
+            last = code & stop_bit;
+            code &= ~stop_bit;
+            return true;
+        };
+        long code;
+        bool last = false;
+        if (!fetch(code, last))
+            return "v-tables: decoder reads past / over its own output at class " + std::to_string(c);
+        if (last) // a class without v-table entries ends right here
+            continue;
+        bool lastw;
+        do {
+            if (!fetch(code, lastw))
+                return "v-tables: decoder reads past / over its own output in class " +
+                    std::to_string(c) + " (encoded words " + std::to_string(e.vtbls.size()) +
+                    ", read " + std::to_string(ri) + ", written " + std::to_string(wi) + ")";
+            last = lastw;
+            if (!(code & index_bit)) {
+                long grp;
+                bool l2;
+                if (code >= r.nm)
+                    return "v-tables: method index out of range";
+                if (!fetch(grp, l2))
+                    return "v-tables: decoder reads past its input (group word)";
+                last = l2;
+            }
+            if (wi >= e.ndec)
+                return "v-tables: decoder writes entry " + std::to_string(wi) +
+                    " of a decoded array of " + std::to_string(e.ndec);
+            ++wi;
+        } while (!last);
+    }
+    if (ri != e.vtbls.size())
+        return "v-tables: " + std::to_string(e.vtbls.size()) + " words emitted, " +
+            std::to_string(ri) + " consumed";
+    return "";
+}
+
+inline void check_encode(const rx::Registry& r, std::vector<Viol>& out) {
+    using namespace yorel::yomm2;
+    hx::Built b;
+    hx::build(r, b);
+    COUNT("updates", 1);
+    COUNT("registrations", r.nr + r.nm);
+    if (!b.ok) {
+        out.push_back({"update_failed", "update reported " + err_text(b.err)});
+        return;
+    }
+    // outcomes after update, for the comparison after decode
+    std::vector<int> after_update;
+    for (int mi = 0; mi < r.nm; ++mi)
+        rx::for_each_tuple(r.po, r.meths[mi], [&](const int8_t* a) {
+            hx::set_dyn(a, r.meths[mi].arity);
+            hx::Obs ob = hx::observe_call(r.meths[mi], a);
+            COUNT("calls", 2);
+            after_update.push_back(ob.outcome);
+        });
+    std::ostringstream os;
+    run::note("encode");
+    generator::encode_dispatch_data(*b.comp, "P", os);
+    COUNT("encodings", 1);
+    std::string text = os.str();
+    Encoded e;
+    if (!parse_encoded(text, e)) {
+        out.push_back({"encoded_text_malformed", e.why});
+        return;
+    }
+    // (1) acceptable to a compiler
+    if (e.headroom < 0 || e.nslots < 0 || e.nenc < 0 || e.ndec < 0 || e.ndtbl < 0) {
+        out.push_back(
+            {"negative_array_size",
+             "headroom[" + std::to_string(e.headroom) + "] slots[" + std::to_string(e.nslots) +
+                 "] vtbls[" + std::to_string(e.nenc) + "] vtbls[" + std::to_string(e.ndec) +
+                 "] dtbls[" + std::to_string(e.ndtbl) + "]"});
+        return;
+    }
+    if ((long)e.slots.size() > e.nslots || (long)e.vtbls.size() > e.nenc ||
+        (long)e.dtbls.size() > e.ndtbl) {
+        out.push_back(
+            {"too_many_initializers",
+             "slots " + std::to_string(e.slots.size()) + "/" + std::to_string(e.nslots) +
+                 " vtbls " + std::to_string(e.vtbls.size()) + "/" + std::to_string(e.nenc) +
+                 " dtbls " + std::to_string(e.dtbls.size()) + "/" + std::to_string(e.ndtbl)});
+        return;
+    }
+    for (auto v : e.slots)
+        if (v < 0 || v > 0xffff)
+            out.push_back({"value_does_not_fit", "slot/stride " + std::to_string(v)});
+    for (auto v : e.vtbls)
+        if (v < 0 || v > 0xffff)
+            out.push_back({"value_does_not_fit", "v-table word " + std::to_string(v)});
+    if (!out.empty())
+        return;
+    // (2a) reference decoder: consumption and in-place safety
+    std::string why = simulate_decode(r, e);
+    if (!why.empty()) {
+        out.push_back({"decoder_leaves_structure", why});
+        return;
+    }
+    // (2b) the real decoder on a buffer laid out like the emitted struct,
+    // between guard pages (end aligned, then start aligned)
+    long enc_bytes = 2 * (e.headroom + e.nslots + e.nenc);
+    long dec_bytes = 8 * e.ndec;
+    long union_bytes = std::max(enc_bytes, dec_bytes);
+    union_bytes = (union_bytes + 7) / 8 * 8;
+    long total = union_bytes + 8 * e.ndtbl;
+    if (total == 0)
+        total = 8;
+    const long page = 4096;
+    long pages = (total + page - 1) / page;
+    for (int align_end = 1; align_end >= 0; --align_end) {
+        char* region = (char*)mmap(
+            nullptr, (pages + 2) * page, PROT_READ | PROT_WRITE,
+            MAP_PRIVATE | MAP_ANONYMOUS, -1, 0);
+        mprotect(region, page, PROT_NONE);
+        mprotect(region + (pages + 1) * page, page, PROT_NONE);
+        char* base = align_end ? region + (pages + 1) * page - ((total + 7) / 8 * 8)
+                               : region + page;
+        memset(region + page, 0xEE, pages * page);
+        auto* enc = (std::uint16_t*)base;
+        for (long i = 0; i < e.headroom; ++i)
+            enc[i] = 0;
+        for (size_t i = 0; i < e.slots.size(); ++i)
+            enc[e.headroom + i] = (std::uint16_t)e.slots[i];
+        for (long i = (long)e.slots.size(); i < e.nslots; ++i)
+            enc[e.headroom + i] = 0;
+        for (size_t i = 0; i < e.vtbls.size(); ++i)
+            enc[e.headroom + e.nslots + i] = (std::uint16_t)e.vtbls[i];
+        auto* dt = (std::uintptr_t*)(base + union_bytes);
+        for (size_t i = 0; i < e.dtbls.size(); ++i)
+            dt[i] = (std::uintptr_t)e.dtbls[i];
+        DataView view;
+        view.encoded.slots = enc + e.headroom;
+        view.encoded.vtbls = enc + e.headroom + e.nslots;
+        view.vtbls = (std::uintptr_t*)base;
+        view.dtbls = dt;
+        // what a fresh process holding the same registrations has
+        for (int c = 0; c < hx::NK; ++c)
+            *hx::g_static_vptr[c] = nullptr;
+        for (int mi = 0; mi < r.nm; ++mi) {
+            std::size_t* ss = hx::g_ops[r.meths[mi].shape].info->slots_strides_ptr;
+            for (int i = 0; i < 2 * r.meths[mi].arity - 1; ++i)
+                ss[i] = 0xdead;
+        }
+        hx::P::dispatch_data.clear();
+        run::note(align_end ? "decode (end aligned)" : "decode (start aligned)");
+        try {
+            decode_dispatch_data<hx::P>(view);
+        } catch (hx::Thrown&) {
+            out.push_back({"decode_reported_error", err_text(hx::g_err)});
+        }
+        COUNT("decodes", 1);
+        // (3) every call behaves exactly as after update
+        if (out.empty()) {
+            run::note("calls after decode");
+            size_t k = 0;
+            for (int mi = 0; mi < r.nm; ++mi)
+                rx::for_each_tuple(r.po, r.meths[mi], [&](const int8_t* a) {
+                    hx::set_dyn(a, r.meths[mi].arity);
+                    hx::Obs ob = hx::observe_call(r.meths[mi], a);
+                    COUNT("calls", 2);
+                    int exp = rx::expected_call(r.po, r.meths[mi], a);
+                    if (ob.outcome != after_update[k] || ob.outcome != exp || ob.resolved != exp)
+                        out.push_back(
+                            {"dispatch_differs_after_decode",
+                             "m=" + std::to_string(mi) + " args=(" +
+                                 tuple_text(a, r.meths[mi].arity) + ") after update " +
+                                 std::to_string(after_update[k]) + " after decode " +
+                                 std::to_string(ob.outcome) + "/" + std::to_string(ob.resolved)});
+                    ++k;
+                });
+        }
+        munmap(region, (pages + 2) * page);
+        if (!out.empty())
+            return;
+    }
+}
+
+inline int encode_main() {
+    auto& o = run::g_opts;
+    run::declare_counters(
+        {"registries", "nontrivial", "updates", "registrations", "calls",
+         "encodings", "decodes", "mi_registries", "first_slot_nonzero",
+         "empty_vtbl", "unused_classes"});
+    if (!o.replay.empty()) {
+        run::g_sh = new run::Shared();
+        run::g_out = stdout;
+        rx::Registry r = rx::from_text(o.replay.c_str());
+        std::vector<Viol> v;
+        check_encode(r, v);
+        for (auto& x : v)
+            printf("VIOL\t%s\t%s\n", x.kind.c_str(), x.detail.c_str());
+        return v.empty() ? 0 : 1;
+    }
+    auto spaces = parse_spaces(o.space);
+    return run::run_sharded([&] {
+        long samples = 0;
+        for (auto& sp : spaces)
+            for_each_method_set_registry(sp, [&](const rx::Registry& r) {
+                if (!run::g_gate.take(r))
+                    return;
+                COUNT("registries", 1);
+                bool unused = false;
+                for (int c = 0; c < r.po.n; ++c) {
+                    bool used = false;
+                    for (int mi = 0; mi < r.nm; ++mi)
+                        for (int k = 0; k < r.meths[mi].arity; ++k)
+                            if (rx::le(r.po, c, r.meths[mi].vp[k]))
+                                used = true;
+                    if (!used)
+                        unused = true;
+                }
+                if (unused)
+                    COUNT("unused_classes", 1);
+                if (rx::has_mi(r.po))
+                    COUNT("mi_registries", 1);
+                if (rx::has_mi(r.po) || unused)
+                    COUNT("nontrivial", 1);
+                std::vector<Viol> v;
+                check_encode(r, v);
+                for (auto& x : v)
+                    run::candidate(x.kind.c_str(), rx::to_text(r), x.detail);
+                if (o.shard == 0 && samples < 3 && rx::has_mi(r.po) && run::g_gate.idx % 13 == 0) {
+                    ++samples;
+                    run::sample(rx::to_text(r));
+                }
+            });
+    });
+}
+
+} // namespace drv
